@@ -408,8 +408,14 @@ func canonLine(conds, effects, results []string) (c, e, r []string, ok bool) {
 		if l, op, rr, isCmp := splitTop(a); isCmp && op == "==" {
 			switch {
 			case reNumConst.MatchString(l) && !reNumConst.MatchString(rr):
+				if k, has := eq[rr]; has && k != l {
+					return nil, nil, nil, false // e equals two different constants
+				}
 				eq[rr] = l
 			case reNumConst.MatchString(rr) && !reNumConst.MatchString(l):
+				if k, has := eq[l]; has && k != rr {
+					return nil, nil, nil, false
+				}
 				eq[l] = rr
 			}
 		}
